@@ -3,7 +3,7 @@ families x content path x damage sets), three oracles."""
 import itertools
 import os
 
-from mc import core, e1, e2, fsshim, tf, world
+from mc import core, e1, e2, fsshim, seams, tf, world
 from mc.ref import bencode, model
 
 REAL_B = e1.REAL_B
@@ -316,8 +316,12 @@ class RecheckCheck:
         # a large piece length over files of several MiB (thresholds in bytes)
         MiB = 1 << 20
         for P in ([1 << 23] if quick else [1 << 22, 1 << 23]):
-            for v in ([[3 * MiB + 17, 6 * MiB + 5, MiB + 1]] if quick else
+            for v in ([[3 * MiB + 17, 6 * MiB + 5, MiB + 1],
+                       [12 * MiB, 5 * MiB + 321, 7]] if quick else
                       [[3 * MiB + 17, 6 * MiB + 5, MiB + 1],
+                       [12 * MiB, 5 * MiB + 321, 7],
+                       [4 * MiB, 4 * MiB, 9 * MiB],
+                       [3 * MiB, 9 * MiB, 2 * MiB],
                        [6 * MiB + 5, MiB + 1, 9 * MiB]]):
                 for part in range(8):
                     gs.insert(0, {"scale": "R", "B": REAL_B, "P": P,
@@ -419,6 +423,11 @@ class RecheckCheck:
         root = world.materialize(files, parent, shape=w["shape"])
         world.write_file(os.path.join(parent, world.ROOT_NAME + "2"), b"junk")
         world.write_file(os.path.join(parent, "to"), b"junk")
+        # and siblings that differ from it only in letter case
+        world.write_file(os.path.join(parent, world.ROOT_NAME.upper(), "a"),
+                         b"junk")
+        world.write_file(os.path.join(parent, world.ROOT_NAME.title()),
+                         b"junk")
         mdir = os.path.join(base, "meta")
         os.mkdir(mdir)
         metas = {}
@@ -582,9 +591,14 @@ class RecheckCheck:
                     for where, cpath in (("root", root), ("parent", parent),
                                          ("cli-root", root),
                                          ("cli-parent", parent),
-                                         ("link-root", linkroot)):
+                                         ("link-root", linkroot),
+                                         ("parent-sorted", parent),
+                                         ("parent-reversed", parent)):
                         if where == "link-root" and (dmg_set or not
                                                      linkroot):
+                            continue
+                        if where in ("parent-sorted", "parent-reversed") and \
+                                (dmg_set or not linkroot):
                             continue
                         if where != "root" and dmg_set and \
                                 dmg_set[0][0] != "rm" and not w.get("allcli"):
@@ -592,8 +606,13 @@ class RecheckCheck:
                         if where.startswith("cli") and w["scale"] != "R":
                             continue
                         self.last_printed = None
-                        got = self.run_impl(mpath, cpath,
-                                            cli=where.startswith("cli"))
+                        lctx = seams.listing_order(
+                            where.split("-")[1], under=parent) \
+                            if where.startswith("parent-") else \
+                            seams.nullctx()
+                        with lctx:
+                            got = self.run_impl(mpath, cpath,
+                                                cli=where.startswith("cli"))
                         res.transitions += 1
                         res.evals += 1
                         res.validated += 1
